@@ -333,20 +333,25 @@ let do_key id (f : string array) =
   if m <> f.(4) then fail id "CORR" "float_key_order" (Printf.sprintf "a=%s b=%s model=%s impl=%s" f.(2) f.(3) m f.(4));
   count "float_keys"
 
-(* ---- Y: Union ---- *)
+(* ---- Y: Union / UnionMany: the envelope of the result is the join of the operands' envelopes ---- *)
 let do_union id (f : string array) =
-  match f.(6) with
+  count ("union_op_" ^ f.(2));
+  match f.(5) with
   | "ERR" -> count "union_error"
   | "PANIC" -> count "union_panic"
   | "INVALID" -> count "union_invalid_input"
   | s ->
-    let ea = zenv_of_str f.(4) and eb = zenv_of_str f.(5) in
+    let envs = if f.(4) = "-" then [] else List.map zenv_of_str (split_on '|' f.(4)) in
     let u = zenv_of_str s in
-    note_case ("Y" ^ f.(2) ^ f.(3)) (ea <> None && eb <> None);
-    if u <> join zO ea eb then
-      fail id "SPEC" "union_envelope_is_join" (trunc (Printf.sprintf "a=%s b=%s env(a)=%s env(b)=%s env(union)=%s" f.(2) f.(3) (str_of_zenv ea) (str_of_zenv eb) (str_of_zenv u)));
+    let j = List.fold_left (fun acc e -> join zO acc e) None envs in
+    note_case ("Y" ^ f.(3)) (List.exists (fun e -> e <> None) envs);
+    if u <> j then
+      fail id "SPEC" "union_envelope_is_join" (trunc (Printf.sprintf "%s(%s): operand envelopes %s, join=%s, envelope of the result=%s"
+                                                       f.(2) f.(3) (String.concat " " (List.map str_of_zenv envs)) (str_of_zenv j) (str_of_zenv u)));
+    (match j with
+     | Some b when int_of_z b.minx > 0 || int_of_z b.maxx < 0 || int_of_z b.miny > 0 || int_of_z b.maxy < 0 -> count "union_origin_outside_join"
+     | _ -> ());
     count "union_checked"
-
 
 (* ---- F: every envelope method on float64 boxes of all magnitudes ----
    judged by the float-key instance (comparisons only) and by exact dyadic arithmetic *)
